@@ -66,6 +66,10 @@ MUTANTS = [
          old="    else:\n        fixed_modes = list(fixed_modes)\n\n    if fixed_modes == list(range(tl.ndim(tensor))):", new="\n    if fixed_modes == list(range(tl.ndim(tensor))):"),
     dict(id="m15_rpca_mask_inplace", prop="C15", file="tensorly/decomposition/robust_decomposition.py", note="robust_pca zeroes the unobserved entries of the caller's X in place (they are never read afterwards)",
          old="        mask = T.tensor(mask, **T.context(X))", new="        mask = T.tensor(mask, **T.context(X))\n        X *= mask"),
+    dict(id="m15_mse_window_no_backend_calls", prop="C15", file="tensorly/metrics/regression.py",
+         note="MSE works in place on y_true with plain NumPy operators and restores it afterwards: no backend call inside the window, only an interrupt between two source lines exposes it",
+         old="    return T.mean((y_true - y_pred) ** 2, axis=axis)",
+         new="    if not (T.is_tensor(y_true) and y_true.dtype.kind == 'f' and y_true.flags.writeable) or y_true is y_pred:\n        return T.mean((y_true - y_pred) ** 2, axis=axis)\n    saved = y_true.copy()\n    y_true -= y_pred\n    y_true **= 2\n    out = y_true.mean(axis=axis)\n    y_true[...] = saved\n    return out"),
     dict(id="m15_parafac_mask_restore", prop="C15", file="tensorly/decomposition/_cp.py", note="parafac imputes masked entries into the caller's tensor and restores it only on normal return",
          old=None, new=None, dynamic="parafac_mask_restore"),
 ]
